@@ -35,6 +35,7 @@ import traceback
 from pathlib import Path
 
 import backends_fn as FN
+import backends_typed as BT
 import containers as C
 import gen
 import vcore
@@ -851,6 +852,9 @@ def explore(ctx, factor, bs):
         for i in range(n):
             case = gen_case(rng, knobs)
             case_run(ctx, case, scratch, full=(i % ctx.pick(20, 10) == 0))
+        # typed cells of both backends (bool / number / date / time / error), after the older streams so that
+        # their generated inputs are unchanged
+        BT.explore_typed(ctx, rng, ctx.pick(150, 3000) * factor, ctx.pick(40, 600) * factor, directed=(factor == 1))
         uns = sum(v for k, v in ctx.dist.items() if k.endswith(":unsupported"))
         fn = sum(v for k, v in ctx.dist.items() if k.startswith(("fn:", "pipe:")) and not k.startswith("fn:cell_text"))
         ctx.notes["fragment"] = {
